@@ -3,7 +3,7 @@ import itertools, math
 import numpy as np
 from vf import core
 from vf.ref import defs, dims, names, uexpr
-from vf.monitors import c02_handles, c02_usys
+from vf.monitors import c02_handles, c02_usys, c02_data
 from .common import all_names, chunks, udim, TAINTED
 
 RULE = ("names: every exposed unit name (exhaustive); a case is distinct per name. pairs: ordered pairs of names sharing a "
@@ -30,7 +30,15 @@ RULE = ("names: every exposed unit name (exhaustive); a case is distinct per nam
         "from a string, one compound built with Unit operators, or one conversion (to the SI base string and back, to the defining "
         "expression and back, to another user symbol, in_mks(), in_cgs(), in_base() in R's own system) against number x reference scale of "
         "the expression (ref/regmodel.py sequential model); every symbol is judged right after its definition and again after all later "
-        "ones; distinct = (system, way, evaluation kind, sysarg form, phase). Every system x way is enumerated whatever the seed")
+        "ones; distinct = (system, way, evaluation kind, sysarg form, phase). Every system x way is enumerated whatever the seed. "
+        "data: the NUMBERS that come out of a conversion (monitors/c02_data.py): one evaluation = one call of one conversion door (to / in_units "
+        "with a string or a Unit, to_value, convert_to_units, in_base() / ('mks') / ('cgs') / ('imperial'), in_mks, in_cgs, convert_to_base() / ('cgs'), "
+        "convert_to_mks, convert_to_cgs) on a vector of one dtype (bool, int8..uint64, float16/32/64, longdouble, complex64/128, clongdouble) "
+        "whose magnitudes reach the limits of the dtype (iinfo.max/min, 2**k+-1 beyond the mantissa of the result, full-mantissa floats over the "
+        "exponent range, +-inf, nan), in one layout (1-d, strided 2-d view, unyt_quantity, byte-swapped, read-only), for an ordered pair of "
+        "commensurable unit expressions classified by its exact ratio (unity / whole-s / whole-m / whole-l / recip / recip-l / fraction / huge / "
+        "inexact); every element must equal Fraction(x_i) * exact ratio within (class tolerance of the constituents + 4 eps of the float "
+        "format the result is held in); distinct = (door, layout, dtype, ratio class)")
 ASSUMPTIONS = ("vf/ref/defs.py (own transcription of SI/NIST/CODATA/IAU definitions with a tolerance class per entry) is the trusted base",
                "names listed in unyt's default_unit_name_alternatives are the documented spellings",
                "handles: 'the definitions' of a user registry are what the history of add/modify/remove calls made them (sequential model "
@@ -55,7 +63,19 @@ ASSUMPTIONS = ("vf/ref/defs.py (own transcription of SI/NIST/CODATA/IAU definiti
                "usys: once a symbol's own scale/dimension is reported, it and the symbols defined from it are named in no later judged string "
                "(consequences are not re-reported under other ways' keys)",
                "usys: defining expressions and judged compounds are kept to |dimension exponent| <= 4 (8 for judged compounds) and never contain "
-               "logarithmic units (they cannot be multiplied by design) or offset units")
+               "logarithmic units (they cannot be multiplied by design) or offset units",
+               "data: which dtype a converted result has is C17's subject: the value bound follows the float format the result is actually held "
+               "in; a Python float/complex (to_value of a unyt_quantity) is taken to have been computed in the float of the data's item size "
+               "(at least 2, at most 8 bytes), the rule C17 states",
+               "data: elements whose exact expected value lies outside [1e3*tiny, max/4] of the result's float format are discarded and counted "
+               "(IEEE overflow/underflow, DESIGN 4.13); so are expected values outside 1e-270..1e290 (the double-double reference cannot hold them)",
+               "data: an in-place conversion of 1-byte integers (documented ValueError: there is no 1-byte float) or of booleans (NumPy casting "
+               "TypeError) is a loud refusal, not a wrong value: noted; unyt_quantity refuses booleans, 0-d arrays are used instead",
+               "data: for in_base/in_mks/in_cgs/convert_to_base... the target is the unit that came back, read by ref/uexpr.py; that it is the "
+               "right base unit is C10's subject; an unreadable or differently-dimensioned unit string is counted, not judged",
+               "data: a ratio that the float format the library multiplies in cannot hold as a normal number (float16/32/complex64 data, 2- and "
+               "4-byte integers converted in place) and uint16 data above float16's largest finite value are input-side stress regions: still "
+               "judged (the expected value is representable), but keyed per door group, not per door/dtype (3 listed findings)")
 TIMEOUT = 900
 MIN_EVALS = 3000
 
@@ -81,6 +101,9 @@ def batches(tier, seed):
     # registries reporting in a non-MKS unit system: every system x sysarg x way is enumerated (expressions and numbers are random)
     nu, nrep, xs = (16, 8, 0) if tier == "quick" else (48, 48, 6)
     b += [("usys/%d" % i, ("usys", (seed, i, nu, nrep, xs))) for i in range(nu)]
+    # the DATA of conversions: dtype x magnitude x ratio class x door x layout (enumerated pairs ignore the seed; magnitudes are seeded)
+    nd = 16 if tier == "quick" else 64
+    b += [("data/%d" % i, ("data", (tier, seed, i, nd))) for i in range(nd)]
     return b
 
 
@@ -244,6 +267,9 @@ def worker(batch, rec):
         specs = c02_usys.enum_histories(nrep)
         for j in range(i, len(specs), n):
             c02_usys.run_enum(unyt, core.rng(seed, "usys", j), specs[j], rec, extra_steps=xs)
+    elif kind == "data":
+        t, seed, i, n = payload
+        c02_data.run_batch(unyt, rec, t, seed, i, n)
     elif kind == "compound":
         seed, i, n = payload
         r = core.rng(seed, "compound", i)
@@ -310,8 +336,8 @@ def extra(tier, seed, results):
     for _, r in results:
         for k, v in r.get("counters", {}).items():
             c[k] = c.get(k, 0) + v
-        reached.update(x for x in r.get("reached", []) if x.startswith(("handles|", "usys|")))
-    zero = [k for k in c02_handles.DECIDING + c02_usys.DECIDING if not c.get(k)]
+        reached.update(x for x in r.get("reached", []) if x.startswith(("handles|", "usys|", "data|")))
+    zero = [k for k in c02_handles.DECIDING + c02_usys.DECIDING + c02_data.DECIDING if not c.get(k)]
     known = core.load_findings()
     if zero and not any(k not in known for _, r in results for k in r.get("viol", {})):     # a new violation is reported, never masked
         raise core.Inconclusive("sub-monitors-saw-nothing:" + ",".join(zero))
@@ -319,5 +345,8 @@ def extra(tier, seed, results):
     ucat = c02_usys.catalogue()
     if ucat - reached and not any(k not in known for _, r in results for k in r.get("viol", {})):
         raise core.Inconclusive("usys-cells-not-reached:" + ",".join(sorted(ucat - reached)[:6]))
-    return {"sub_monitor_counters": {k: c[k] for k in sorted(c) if k.startswith(("handles_", "usys_"))}, "handles_catalogue_size": len(cat),
-            "usys_catalogue_size": len(ucat), "unreached": sorted((cat | ucat) - reached)}
+    dcat = c02_data.catalogue()
+    if dcat - reached and not any(k not in known for _, r in results for k in r.get("viol", {})):
+        raise core.Inconclusive("data-cells-not-reached:" + ",".join(sorted(dcat - reached)[:6]))
+    return {"sub_monitor_counters": {k: c[k] for k in sorted(c) if k.startswith(("handles_", "usys_", "data_"))}, "handles_catalogue_size": len(cat),
+            "usys_catalogue_size": len(ucat), "data_catalogue_size": len(dcat), "unreached": sorted((cat | ucat | dcat) - reached)}
